@@ -231,6 +231,30 @@ C15_NotDescended == Done => \A j \in 1..Len(visited) : ~Excluded(visited[j])
 C15_ExcludedNotScanned == Done => \A D \in scanned : ~Excluded(D)
 C15_WholeInputExcluded == Done /\ Match(cfg.pats, <<>>, TRUE) => effects = <<>> /\ visited = <<>> /\ fs = tree0
 
+\* ---------------------------------------------------------------- C18 (effects)
+\* without an output directory nothing is written; index pages are never printed
+C18_NoWritesWithoutOut == Done /\ cfg.out.kind = "none" => fs = tree0 /\ Eff("index") = <<>> /\ Eff("page") = <<>>
+\* with an output directory nothing is printed
+C18_NoPrintsWithOut == Done /\ cfg.out.kind # "none" => Eff("print") = <<>>
+\* an output directory inside the input tree: the file system changes only at and below it
+\* (its missing ancestors are created, and gain exactly the next path element)
+C18_WritesUnderOut ==
+  Done /\ cfg.out.inside =>
+     \A p \in DOMAIN fs :
+        \/ IsPrefix2(cfg.out.path, p)
+        \/ /\ IsPrefix2(p, cfg.out.path) /\ Len(p) < Len(cfg.out.path)
+           /\ Dir(fs, p).files = Dir(tree0, p).files
+           /\ Dir(fs, p).dirs \ Dir(tree0, p).dirs \subseteq {cfg.out.path[Len(p) + 1]}
+        \/ (p \in DOMAIN tree0 /\ fs[p] = tree0[p])
+\* the pages of one directory are emitted together, in sorted name order
+PageEvents == SelectSeq(effects, LAMBDA e : e.e \in {"page", "print"})
+C18_SortedPerDirectory ==
+  Done => \A i, j \in 1..Len(PageEvents) :
+     (i < j /\ PageEvents[i].dir = PageEvents[j].dir) =>
+        /\ \A k \in i..j : PageEvents[k].dir = PageEvents[i].dir
+        /\ (CHOOSE f \in Dir(tree0, PageEvents[i].dir).files : f.n = PageEvents[i].file).rk
+             < (CHOOSE f \in Dir(tree0, PageEvents[j].dir).files : f.n = PageEvents[j].file).rk
+
 \* ---------------------------------------------------------------- behaviours for replay
 Emit == Done => PrintT(<<"BEH", ToJson([tree |-> {[path |-> Names(p), dirs |-> {x.n : x \in tree0[p].dirs},
                                                    files |-> {x.n : x \in tree0[p].files}] : p \in DOMAIN tree0},
